@@ -125,7 +125,7 @@ fn parse_val(slots: &[Value], s: &str) -> Option<Value> {
 /// the value argument of an operation (every operation has at most one, always the last argument)
 fn val_arg(slots: &[Value], name: &str, args: &[&str]) -> Result<Option<Value>, ()> {
     match name {
-        "push" | "insat" | "oins" | "assign" | "setk" | "seti" | "orins" | "resize" => match args.last().and_then(|a| parse_val(slots, a)) {
+        "push" | "insat" | "oins" | "assign" | "setk" | "seti" | "orins" | "resize" | "append" => match args.last().and_then(|a| parse_val(slots, a)) {
             Some(v) => Ok(Some(v)),
             None => Err(()),
         },
@@ -254,6 +254,30 @@ fn apply(t: &mut Value, name: &str, args: &[&str], x: Option<Value>) -> String {
             }
             None => "panic".into(),
         },
+        "append" => {
+            // `other` is the argument value, held as an Array / Object of its own; it must be empty afterwards
+            let mut other = val(0);
+            if t.is_array() {
+                // (the target is promoted first, as by every other container operation, also when there is then no such call)
+                let a = t.as_array_mut().unwrap();
+                if !other.is_array() {
+                    return "panic".into();
+                }
+                let o = other.as_array_mut().unwrap();
+                a.append(o);
+                if o.is_empty() { "done".into() } else { "other-not-empty".into() }
+            } else if t.is_object() {
+                let a = t.as_object_mut().unwrap();
+                if !other.is_object() {
+                    return "panic".into();
+                }
+                let o = other.as_object_mut().unwrap();
+                a.append(o);
+                if o.is_empty() { "done".into() } else { "other-not-empty".into() }
+            } else {
+                "panic".into()
+            }
+        }
         "retnn" => {
             if let Some(a) = t.as_array_mut() {
                 a.retain(|v| !v.is_null());
@@ -413,6 +437,19 @@ fn gen_path(r: &mut Rng, v: &Value) -> String {
     }
 }
 
+/// the other container of an `append`: mostly of the wanted kind, objects of every size with keys shared with the target
+fn gen_container(r: &mut Rng, slots: &[Value], obj: bool) -> String {
+    const OBJS: &[&str] = &[
+        "{}", "{\"a\":\"v\"}", "{\"a\":9,\"b\":8}", "{\"k\":2,\"y\":[1,2]}", "{\"a\":[0],\"b\":null,\"c\":true,\"d\":\"z\",\"k\":{}}",
+        "{\"d\":5,\"c\":{\"a\":1}}", "{\"a\":1,\"a\":2}", "{\"b\":[4],\"a\":{\"c\":3},\"b\":0}",
+    ];
+    const ARRS: &[&str] = &["[]", "[7]", "[null,[1],{\"a\":2}]", "[\"p\",\"q\",\"r\",\"s\"]"];
+    if r.chance(1, 8) {
+        return gen_val(r, slots);
+    }
+    format!("v{}", hex(r.pick(if obj { OBJS } else { ARRS }).as_bytes()))
+}
+
 fn gen_val(r: &mut Rng, slots: &[Value]) -> String {
     if r.chance(1, 2) || slots.is_empty() {
         format!("v{}", hex(r.pick(DOCS).as_bytes()))
@@ -496,6 +533,7 @@ fn gen_history(r: &mut Rng, len: usize, allow_empty_path: bool) -> String {
                                 }
                                 3 => format!("resize:{}:{}", r.below(len + 3), gen_val(r, &slots)),
                                 4 => "retnn".to_string(),
+                                5 => format!("append:{}", gen_container(r, &slots, false)),
                                 _ => format!("seti:{}:{}", r.below(len + 1), gen_val(r, &slots)),
                             },
                             10 => format!("setk:{key}:{}", gen_val(r, &slots)),
@@ -507,7 +545,11 @@ fn gen_history(r: &mut Rng, len: usize, allow_empty_path: bool) -> String {
                             3 | 4 => format!("orem:{key}"),
                             5 | 6 => format!("setk:{key}:{}", gen_val(r, &slots)),
                             7 | 8 => format!("orins:{key}:{}", gen_val(r, &slots)),
-                            9 => if r.chance(1, 2) { "clear".to_string() } else { "retnn".to_string() },
+                            9 => match r.below(4) {
+                                0 => "clear".to_string(),
+                                1 => "retnn".to_string(),
+                                _ => format!("append:{}", gen_container(r, &slots, true)),
+                            },
                             10 => format!("seti:0:{}", gen_val(r, &slots)),
                             _ => format!("push:{}", gen_val(r, &slots)),
                         }
